@@ -382,29 +382,47 @@ def assocGet (d : List (Nat × Cell)) (k : Nat) : Cell :=
   | some p => p.2
   | Option.none => .missing
 
+/-- `tuple(sorted(new_cols))`: the names of the mapping that are not columns yet, once each, sorted -/
+def newColsOf (columns keys : List Nat) : List Nat :=
+  sortNat ((dedupNat keys).filter (fun c => !(columns.contains c)))
+
+/-- `dat_len`: given for dict rows (see `Table.insert`), else the length of the first value list -/
+def padLenOf (padLen : Option Nat) (cs : List (Nat × List Cell)) : Nat :=
+  match padLen, cs with
+  | some n, _ => n
+  | Option.none, [] => 1
+  | Option.none, (_, v) :: _ => v.length
+
+/-- `data[hdr]` (nothing if the mapping has no such key) -/
+def mapValD (cs : List (Nat × List Cell)) (c : Nat) : List Cell :=
+  match cs.find? (fun q => q.1 == c) with
+  | some q => q.2
+  | Option.none => []
+
+/-- `for hdr in old_cols: extend(data[hdr])`, `for hdr in pad_cols: extend(repeat(Missing, dat_len))` -/
+def extendOld (columns : List Nat) (cs : List (Nat × List Cell)) (datLen : Nat) (p : Nat × List Cell) : Nat × List Cell :=
+  if columns.contains p.1 then
+    match cs.find? (fun q => q.1 == p.1) with
+    | some q => (p.1, p.2 ++ q.2)
+    | Option.none => (p.1, p.2 ++ List.replicate datLen Cell.missing)
+  else p
+
 /-- insertion of a mapping of columns (the branch both dict shapes end in) -/
-def insertCols (t : Table) (cs : List (Nat × List Cell)) (padLen : Option Nat) : Except Err Table := do
-  let old := t.columns
-  let newKeys := dedupNat (cs.map (·.1))
-  let newCols := sortNat (newKeys.filter (fun k => !(old.contains k)))
-  let oldLen ← if newCols.isEmpty then pure 0 else t.len
-  let datLen := match padLen, cs with
-    | some n, _ => n
-    | Option.none, [] => 1
-    | Option.none, (_, v) :: _ => v.length
-  -- old and pad columns, in place
-  let data1 := t.data.map (fun (p : Nat × List Cell) =>
-    if old.contains p.1 then
-      match cs.find? (fun q => q.1 == p.1) with
-      | some q => (p.1, p.2 ++ q.2)
-      | Option.none => (p.1, p.2 ++ List.replicate datLen Cell.missing)
-    else p)
-  -- new columns
-  let fresh := newCols.map (fun k =>
-    (k, List.replicate oldLen Cell.missing ++ (match cs.find? (fun q => q.1 == k) with | some q => q.2 | Option.none => [])))
-  -- a new column may already be a key of `_data` (dropped from `_columns` never happens) -> replace
-  let data2 := data1.filter (fun p => !(newCols.contains p.1)) ++ fresh
-  pure { t with data := data2, columns := old ++ newCols }
+def insertCols (t : Table) (cs : List (Nat × List Cell)) (padLen : Option Nat) : Except Err Table :=
+  let newCols := newColsOf t.columns (cs.map (·.1))
+  -- if new_cols: old_len = len(self)
+  match (if newCols.isEmpty then .ok 0 else t.len) with
+  | .error e => .error e
+  | .ok oldLen =>
+    let data1 := t.data.map (extendOld t.columns cs (padLenOf padLen cs))
+    -- self._data[hdr] = list(chain(repeat(Missing, old_len), data[hdr])) for the new columns
+    let fresh := newCols.map (fun k => (k, List.replicate oldLen Cell.missing ++ mapValD cs k))
+    -- (a new column name that is already a key of `_data` would be replaced)
+    .ok { t with data := data1.filter (fun p => !(newCols.contains p.1)) ++ fresh, columns := t.columns ++ newCols }
+
+/-- the mapping a sequence of dict rows is turned into -/
+def dictsToCols (ds : List (List (Nat × Cell))) : List (Nat × List Cell) :=
+  (dedupNat (ds.flatMap (fun d => d.map (·.1)))).map (fun k => (k, ds.map (fun d => assocGet d k)))
 
 /-- `Table.insert` (only on tables that own their data) -/
 def Table.insert (cfg : Cfg) (t : Table) (d : InsertData) : Except Err Table :=
@@ -413,9 +431,8 @@ def Table.insert (cfg : Cfg) (t : Table) (d : InsertData) : Except Err Table :=
   | .dicts [] => .ok t
   | .cols [] => .ok t
   | .dicts ds =>
-    let keys := dedupNat (ds.flatMap (fun d => d.map (·.1)))
-    insertCols t (keys.map (fun k => (k, ds.map (fun d => assocGet d k))))
-      (if cfg.dictLen then some ds.length else if keys.isEmpty then some 1 else Option.none)
+    insertCols t (dictsToCols ds)
+      (if cfg.dictLen then some ds.length else if (dictsToCols ds).isEmpty then some 1 else Option.none)
   | .cols cs => insertCols t cs Option.none
   | .rows (r :: rs) =>
     if r.length ≠ t.columns.length then .error .assertionError
@@ -740,7 +757,7 @@ inductive GroupOut
   | cnt (k : List Cell) (n : Nat)
   | one (k : List Cell) (v : List Cell)
   | many (k : List Cell) (vs : List (List Cell))
-  deriving Repr
+  deriving Repr, DecidableEq
 
 /-- `col[l:h]` -/
 def Seq.slice (s : Seq) (l h : Nat) : Except Err (List Cell) := do
@@ -826,7 +843,7 @@ inductive Obs
   | groups (gs : List GroupOut)
   | err (e : Err)
   | skipped
-  deriving Repr
+  deriving Repr, DecidableEq
 
 def observe (t : Table) : Obs :=
   match t.rows with
@@ -1134,6 +1151,22 @@ def indexWF (cfg : Cfg) (t : Table) (indx : List Nat) : Bool :=
 /-- positions (in the row) of the index columns -/
 def idxPositions (columns : List Nat) (idx : List Nat) : List Nat := idx.map (fun d => columns.idxOf d)
 
+/-- `insertS` for a mapping `column → k values`: columns the table does not have yet are appended
+in sorted order; old rows get `Missing` there; the `k` new rows take their cells from the mapping and
+`Missing` for columns it does not mention -/
+def insertColsS (columns : List Nat) (R : List (List Cell)) (cs : List (Nat × List Cell)) (k : Nat) :
+    List Nat × List (List Cell) :=
+  let newCols := newColsOf columns (cs.map (·.1))
+  (columns ++ newCols, R.map (fun r => r ++ newCols.map (fun _ => Cell.missing)) ++
+    (List.range k).map (fun i => (columns ++ newCols).map (fun c => cellAt (mapValD cs c) i)))
+
+/-- `insertS` for a sequence of dict rows: each dict is one new row -/
+def insertDictsS (columns : List Nat) (R : List (List Cell)) (ds : List (List (Nat × Cell))) :
+    List Nat × List (List Cell) :=
+  let newCols := newColsOf columns (ds.flatMap (fun d => d.map (·.1)))
+  (columns ++ newCols, R.map (fun r => r ++ newCols.map (fun _ => Cell.missing)) ++
+    ds.map (fun d => (columns ++ newCols).map (assocGet d)))
+
 /-- lexicographic `<` of two rows on the columns `ks` (positions in the row) -/
 def lexLt (ks : List Nat) (r s : List Cell) : Bool :=
   match ks with
@@ -1157,5 +1190,136 @@ def runsBy {α} (same : α → α → Bool) : List α → List (List α)
 def samePrefix (ks : List Nat) (r s : List Cell) : Bool := !(lexLt ks r s) && !(lexLt ks s r)
 
 def groupbyS (ks : List Nat) (rows : List (List Cell)) : List (List (List Cell)) := runsBy (samePrefix ks) rows
+
+/-! ## `match`, cell by cell -/
+
+/-- what `match` means for one cell, whatever else is in the column: a number matches a number
+when equal, a string when it contains the number between non-digits; a pattern (literal, no
+metacharacters) matches when `str(cell)` contains it; `None` / `Missing` never match -/
+def matchCell (arg c : Cell) : Bool :=
+  match c with
+  | .str s => if isNumber arg then numSearch (cellStr arg) true s else litSearch (cellStr arg) s
+  | .int i => if isNumber arg then pyEq (.int i) arg else litSearch (cellStr arg) (intStr i)
+  | .flt q => if isNumber arg then pyEq (.flt q) arg else litSearch (cellStr arg) (fltStr q)
+  | _ => false
+
+/-- all cells strings, or all cells numbers (no `None`, no `Missing`) -/
+def homogB (col : List Cell) : Bool := col.all isStr || col.all isNumber
+
+/-! ## Linear histories: the refinement `ops_refine` is about these
+
+One table object and what is made from it: `insert` / `index` mutate it, `where` continues with the
+result (where-of-where), `copy` with the copy.  (Several live objects sharing storage are `run`/`step`
+above; they are outside the refinement theorem, see `copy_shares_storage_counterexample`.) -/
+
+inductive LOp
+  | insert (d : InsertData)
+  | index (cols : List Nat)
+  | whereK (pos : Option Op) (kws : List (Nat × Arg))
+  | whereP (p : RowPred)
+  | copy
+  deriving Repr
+
+def stepL (cfg : Cfg) (t : Table) : LOp → Except Err Table
+  | .insert d => t.insert cfg d
+  | .index cols => t.index cfg cols
+  | .whereK pos kws => t.pwhere cfg Option.none pos kws
+  | .whereP p => t.pwhere cfg (some p) Option.none []
+  | .copy => .ok t.copy
+
+def runL (cfg : Cfg) : Table → List LOp → Except Err Table
+  | t, [] => .ok t
+  | t, op :: rest =>
+    match stepL cfg t op with
+    | .error e => .error e
+    | .ok t' => runL cfg t' rest
+
+/-- the abstract table of the specification: column names, rows, index columns -/
+structure AbsT where
+  columns : List Nat
+  rows : List (List Cell)
+  indexes : List Nat
+  deriving Repr
+
+/-- `insertS` -/
+def insertS (columns : List Nat) (R : List (List Cell)) : InsertData → List Nat × List (List Cell)
+  | .rows rs => (columns, R ++ rs)
+  | .dicts ds => if ds.isEmpty then (columns, R) else insertDictsS columns R ds
+  | .cols cs => match cs with
+    | [] => (columns, R)
+    | q :: _ => insertColsS columns R cs q.2.length
+
+/-- the specification machine: insert appends the normalised rows, index is the stable lexicographic
+sort by the named columns that exist (once each), where is the plain filter, copy changes nothing -/
+def stepLS (a : AbsT) : LOp → Except Err AbsT
+  | .insert d => .ok { a with columns := (insertS a.columns a.rows d).1, rows := (insertS a.columns a.rows d).2 }
+  | .index cols =>
+    let ix := dedupNat (cols.filter (fun c => a.columns.contains c))
+    .ok { a with rows := indexS (idxPositions a.columns ix) a.rows, indexes := ix }
+  | .whereK pos kws =>
+    match whereS { columns := a.columns, rows := a.rows } (kws.map (condOf pos)) with
+    | .ok rs => .ok { a with rows := rs }
+    | .error e => .error e
+  | .whereP p => .ok { a with rows := a.rows.filter p.eval }
+  | .copy => .ok a
+
+def runLS : AbsT → List LOp → Except Err AbsT
+  | a, [] => .ok a
+  | a, op :: rest =>
+    match stepLS a op with
+    | .error e => .error e
+    | .ok a' => runLS a' rest
+
+/-- length of the stored lists -/
+def tableN (t : Table) : Nat :=
+  match t.data with
+  | [] => 0
+  | (_, b) :: _ => b.length
+
+/-- a table `insert` can work on: it owns its lists (not a view), is well-formed, every stored list is a column -/
+def insertOKB (t : Table) : Bool :=
+  decide (t.sel = Sel.all) && tableOKB t (tableN t) && t.data.all (fun p => t.columns.contains p.1)
+
+/-- hypotheses of `insert_eq_spec`: rows as long as the (distinct) columns; value lists of a mapping
+equally long; for dict rows without any key the P-empty-dicts repair; at least one column afterwards -/
+def insertWF (cfg : Cfg) (t : Table) (d : InsertData) : Bool :=
+  insertOKB t &&
+  (match d with
+   | .rows rs => !rs.isEmpty && !t.columns.isEmpty && decide t.columns.Nodup && rs.all (fun r => r.length == t.columns.length)
+   | .cols cs => (match cs with
+       | [] => false
+       | q :: _ => cs.all (fun q' => q'.2.length == q.2.length)) && !(t.columns ++ newColsOf t.columns (cs.map (·.1))).isEmpty
+   | .dicts ds => !ds.isEmpty && (cfg.dictLen || !(dictsToCols ds).isEmpty)
+       && !(t.columns ++ newColsOf t.columns (ds.flatMap (fun d => d.map (·.1)))).isEmpty)
+
+/-- the side conditions of one operation of a linear history, on the table it is applied to -/
+def opWF (cfg : Cfg) (t : Table) : LOp → Bool
+  | .insert d => insertWF cfg t d
+  | .index cols => indexWF cfg t cols
+  | .whereK pos kws => whereWF cfg t pos kws &&
+      (match t.rows with
+       | .ok R => isOk (whereS { columns := t.columns, rows := R } (kws.map (condOf pos)))
+       | .error _ => false)
+  | .whereP _ => (match t.data with | [] => false | (_, b) :: _ => tableOKB t b.length) && !t.columns.isEmpty
+  | .copy => true
+
+/-- `WFops`: every operation of the history meets its side conditions when its turn comes -/
+def WFL (cfg : Cfg) : Table → List LOp → Bool
+  | _, [] => true
+  | t, op :: rest =>
+    opWF cfg t op &&
+    (match stepL cfg t op with
+     | .ok t' => WFL cfg t' rest
+     | .error _ => false)
+
+/-- abstraction: what the table shows -/
+def Table.abs (t : Table) : AbsT :=
+  { columns := t.columns, rows := (match t.rows with | .ok R => R | .error _ => []), indexes := t.indexes }
+
+/-- equal up to Python's `==`, cell by cell (`1` vs `1.0`: `index` may exchange them between rows
+that agree on an earlier index column) -/
+def AbsT.eqv (a b : AbsT) : Prop :=
+  a.columns = b.columns ∧ a.indexes = b.indexes ∧ a.rows.map (List.map Cell.key) = b.rows.map (List.map Cell.key)
+
 
 end Coba.C17
